@@ -73,9 +73,10 @@ def item_body(src, header_re, what):
             if depth == 0:
                 return src[i + 1:j]
         elif c == '"':
+            raw = j > 0 and src[j - 1] == "r"
             j += 1
             while j < n and src[j] != '"':
-                if src[j] == "\\":
+                if src[j] == "\\" and not raw:
                     j += 1
                 j += 1
         elif c == "'" and re.match(r"'(\\.|[^'\\])'", src[j:j + 4]):
